@@ -8,6 +8,11 @@
 #include "stubs/C14_io.h"
 
 #define C14_MAXLEN VSTR_MAXCAP          /* 2^47-1: the cbmc object-size limit with the default object bits */
+#ifdef C14_EXACT_SMALL
+#define C14_EXACT_MAX 4
+#else
+#define C14_EXACT_MAX C14_MAXLEN
+#endif
 #define C14_ENTRY __CPROVER_requires(verif_exc == 0 && g_pos <= g_src_len && g_src_len <= C14_MAXLEN && g_wpos <= C14_MAXLEN)
 #define C14_IOERR __CPROVER_ensures(verif_exc == 0 || verif_exc == EXC_io_error)
 /* out-parameter string: empty, capacity = "allocation of need bytes succeeds" */
@@ -21,11 +26,6 @@
 #define C14_SINK_ASSIGNS verif_exc, g_wpos, g_wval, g_err_seen, g_chunk
 
 /* ---- descriptor, exact size ------------------------------------------------------------------------------------------ */
-#ifdef C14_EXACT_SMALL
-#define C14_EXACT_MAX 4
-#else
-#define C14_EXACT_MAX C14_MAXLEN
-#endif
 void phosg_readx(int fd, void* data, size_t size)
 C14_ENTRY
 __CPROVER_requires(size <= C14_EXACT_MAX)
@@ -69,10 +69,12 @@ __CPROVER_assigns(C14_SINK_ASSIGNS);
 /* ---- descriptor, exact size at an offset ----------------------------------------------------------------------------------- */
 void phosg_preadx(int fd, void* data, size_t size, off_t offset)
 C14_ENTRY
-__CPROVER_requires(size <= C14_MAXLEN)
+__CPROVER_requires(size <= C14_EXACT_MAX)
 __CPROVER_requires(__CPROVER_is_fresh(data, size))
 C14_IOERR
-__CPROVER_ensures((verif_exc == 0) == (g_chunk >= 0 && (size_t)g_chunk == size))
+/* (as for readx: complete delivery succeeds, failure / nothing delivered throws, success means the whole range is in place) */
+__CPROVER_ensures((g_chunk >= 0 && (size_t)g_chunk == size) ==> verif_exc == 0)
+__CPROVER_ensures((g_chunk < 0 || (size != 0 && g_chunk == 0)) ==> verif_exc != 0)
 __CPROVER_ensures((verif_exc == 0 && size > 0) ==> (offset >= 0 && (size_t)offset + size <= g_src_len))      /* the whole range exists in the file */
 __CPROVER_ensures((verif_exc == 0 && g_vk >= (size_t)offset && g_vk < (size_t)offset + size) ==> C14_U8(data)[g_vk - (size_t)offset] == g_sval)
 __CPROVER_assigns(verif_exc, g_err_seen, g_chunk; size != 0: __CPROVER_object_upto(data, size));
@@ -80,7 +82,8 @@ __CPROVER_assigns(verif_exc, g_err_seen, g_chunk; size != 0: __CPROVER_object_up
 void phosg_preadx_str(vstr* ret, int fd, size_t size, off_t offset)
 C14_ENTRY C14_RET(ret, size)
 C14_IOERR
-__CPROVER_ensures((verif_exc == 0) == (g_chunk >= 0 && (size_t)g_chunk == size))
+__CPROVER_ensures((g_chunk >= 0 && (size_t)g_chunk == size) ==> verif_exc == 0)
+__CPROVER_ensures((g_chunk < 0 || (size != 0 && g_chunk == 0)) ==> verif_exc != 0)
 __CPROVER_ensures(verif_exc == 0 ==> ret->size == size)
 __CPROVER_ensures((verif_exc == 0 && size > 0) ==> (offset >= 0 && (size_t)offset + size <= g_src_len))
 __CPROVER_ensures((verif_exc == 0 && g_vk >= (size_t)offset && g_vk < (size_t)offset + size) ==> (uint8_t)ret->data[g_vk - (size_t)offset] == g_sval)
@@ -105,10 +108,11 @@ __CPROVER_assigns(verif_exc, g_wval, g_err_seen, g_chunk);
 /* ---- FILE*, exact size ----------------------------------------------------------------------------------------------- */
 void phosg_freadx(C14_FILE* f, void* data, size_t size)
 C14_ENTRY
-__CPROVER_requires(size <= C14_MAXLEN)
+__CPROVER_requires(size <= C14_EXACT_MAX)
 __CPROVER_requires(__CPROVER_is_fresh(data, size))
 C14_IOERR
-__CPROVER_ensures((verif_exc == 0) == ((size_t)g_chunk == size))
+__CPROVER_ensures(((size_t)g_chunk == size) ==> verif_exc == 0)
+__CPROVER_ensures((size != 0 && g_chunk == 0) ==> verif_exc != 0)
 __CPROVER_ensures(verif_exc == 0 ==> g_pos == __CPROVER_old(g_pos) + size)
 __CPROVER_ensures((verif_exc == 0 && g_vk >= __CPROVER_old(g_pos) && g_vk < g_pos) ==> C14_U8(data)[g_vk - __CPROVER_old(g_pos)] == g_sval)
 __CPROVER_assigns(C14_SRC_ASSIGNS; size != 0: __CPROVER_object_upto(data, size));
@@ -116,7 +120,8 @@ __CPROVER_assigns(C14_SRC_ASSIGNS; size != 0: __CPROVER_object_upto(data, size))
 void phosg_freadx_str(vstr* ret, C14_FILE* f, size_t size)
 C14_ENTRY C14_RET(ret, size)
 C14_IOERR
-__CPROVER_ensures((verif_exc == 0) == ((size_t)g_chunk == size))
+__CPROVER_ensures(((size_t)g_chunk == size) ==> verif_exc == 0)
+__CPROVER_ensures((size != 0 && g_chunk == 0) ==> verif_exc != 0)
 __CPROVER_ensures(verif_exc == 0 ==> (ret->size == size && g_pos == __CPROVER_old(g_pos) + size))
 __CPROVER_ensures((verif_exc == 0 && g_vk >= __CPROVER_old(g_pos) && g_vk < g_pos) ==> (uint8_t)ret->data[g_vk - __CPROVER_old(g_pos)] == g_sval)
 __CPROVER_assigns(C14_SRC_ASSIGNS, ret->size, __CPROVER_object_whole(ret->data));
